@@ -352,10 +352,10 @@ func genC06View(r *Rng) ([]*MNode, string) {
 	switch k := r.Intn(100); {
 	case k < 45:
 		return GenView(r, TreeOpts{MaxEntries: 12, Types: r.Chance(60), HardLinks: r.Chance(40), Xattrs: r.Chance(30),
-			BigFiles: r.Chance(30), Owners: r.Chance(30)}), "small"
+			BigFiles: r.Chance(12), Owners: r.Chance(30)}), "small"
 	case k < 80:
 		return GenView(r, TreeOpts{MaxEntries: 60, MaxDepth: 5, Types: r.Chance(70), HardLinks: r.Chance(50), Xattrs: r.Chance(30),
-			BigFiles: r.Chance(25), Owners: r.Chance(30), LongNames: r.Chance(10)}), "medium"
+			BigFiles: r.Chance(10), Owners: r.Chance(30), LongNames: r.Chance(10)}), "medium"
 	default:
 		return genBigView(r, 150+r.Intn(300)), "wide"
 	}
@@ -529,6 +529,7 @@ func derivePrior(r *Rng, view []*MNode) ([]*MNode, []string) {
 				continue // absent (with everything below it)
 			}
 			c := &MNode{Name: k.Name, Stat: k.Stat.CloneVT(), Content: append([]byte{}, k.Content...)}
+			c.Stat.Xattrs = nil // not compared by the diff; user.* xattrs cannot be set on special files
 			m := os.FileMode(k.Stat.Mode)
 			switch {
 			case m.IsDir():
@@ -583,11 +584,11 @@ func genC07(g *Gen) {
 			cls = "huge"
 		case k < 50:
 			view = GenView(r, TreeOpts{MaxEntries: 12, Types: r.Chance(60), HardLinks: r.Chance(40), Xattrs: r.Chance(20),
-				BigFiles: r.Chance(30), Owners: r.Chance(30)})
+				BigFiles: r.Chance(12), Owners: r.Chance(30)})
 			cls = "small"
 		case k < 88:
 			view = GenView(r, TreeOpts{MaxEntries: 60, MaxDepth: 5, Types: r.Chance(70), HardLinks: r.Chance(50), Xattrs: r.Chance(20),
-				BigFiles: r.Chance(25), Owners: r.Chance(30)})
+				BigFiles: r.Chance(10), Owners: r.Chance(30)})
 			cls = "medium"
 		default:
 			view = genBigView(r, 150+r.Intn(200))
